@@ -12,7 +12,7 @@ META = {
              'completed flag; exactly one roCreate and at most one mosromgrmeta under the root; messageID unchanged; '
              'roID unchanged for messages addressed to that running order. Signature = transition signature.'),
     'workers': {'quick': 12, 'thorough': 16},
-    'watchdog': {'quick': 300, 'thorough': 1800},
+    'watchdog': {'quick': 600, 'thorough': 3600},
 }
 
 
